@@ -205,7 +205,7 @@ def c12(run):
 def c15(run):
     run.trace("dirty", Q(run, 3, 150))
     run.trace("dirty", Q(run, 1, 20), seed_off=100, poison=1, small=True)
-    run.receiver_design(sample=Q(run, 4000, 60000), sim=Q(run, 500, 6000))
+    run.receiver_design(sample=Q(run, 4000, 60000), sim=Q(run, 500, 6000), full=True)
     return run.finish(RULE_RCV + RULE_TRACE)
 
 
